@@ -488,7 +488,20 @@ func (l *log) delete(offsets map[int64]struct{}) ([]Message, int64, error) {
 	l.readersMu.Lock()
 	defer l.readersMu.Unlock()
 
-	newReader, err := rdr.Delete(rs)
+	// the reader might have been replaced since it was found (the writing segment
+	// rolled over while waiting for the writer), work with the one that is in use now
+	var current *reader
+	for _, r := range l.readers {
+		if r.segment == rdr.segment {
+			current = r
+		}
+	}
+	if current == nil {
+		// the segment is gone, there is nothing to delete from
+		return nil, 0, rs.Remove()
+	}
+
+	newReader, err := current.Delete(rs)
 	if err != nil {
 		return nil, 0, err
 	}
